@@ -103,7 +103,7 @@ class Ctx(object):
         case = self.case if case is None else case
         self.failure_counts[key] = self.failure_counts.get(key, 0) + 1
         lst = self.failures.setdefault(key, [])
-        entry = {"key": key, "detail": jsonable(detail), "case": case}
+        entry = {"key": key, "detail": jsonable(detail), "case": case, "hashseed": os.environ.get("PYTHONHASHSEED", "0")}
         size = len(json.dumps(jsonable(case), sort_keys=True, default=repr))
         entry["_size"] = size
         if len(lst) < self.MAX_FAIL_PER_KEY:
